@@ -360,7 +360,7 @@ def impl_scalar(sb, key, value):
     f.write_text(f"set {key} {value}\n" if value.strip() else "\n")
     cfg = Config(f, str(sb / "base"))
     if not value.strip():
-        cfg._variables[key] = value
+        C.priv(cfg, ["_variables"], lambda n, v: isinstance(v, dict) and "nthreads" in v)[key] = value
     return cfg
 
 
@@ -427,7 +427,7 @@ def run(rep: C.Report):
             except ValueError:
                 z = None
             rep.case(("size", v))
-            srows.append((v, cstr(cfg._variables["limit_rate"]), copt(z, cZ)))
+            srows.append((v, cstr(cfg["limit_rate"]), copt(z, cZ)))
         found |= text_values_check(rep, sb)
     finally:
         shutil.rmtree(sb, ignore_errors=True)
